@@ -675,6 +675,14 @@ def header_spec(point):
 def work_header(task, col):
     k, shard, nshards = task
     doms = [d for _, d in header_domains()]
+    if shard == 0:
+        # the smallest messages: header only (12 octets), header + question, header + OPT
+        names = [n for n, _ in header_domains()]
+        base = {n: d[0] for n, d in header_domains()}
+        for over in ({"questions": 0, "body": 1, "edns": None}, {"questions": 1, "body": 1, "edns": None},
+                     {"questions": 0, "body": 1, "edns": 0}, {"questions": 0, "body": 1, "edns": None, "QR": 0, "id": 0}):
+            pt = dict(base, **over)
+            run_spec(header_spec(tuple(pt[n] for n in names)), col, "header")
     for i, point in enumerate(engines.k_deviation(doms, k)):
         if i % nshards != shard:
             continue
